@@ -722,7 +722,7 @@ func c16Run(t *testing.T, rec *verifx.Recorder) {
 		s := c16Setup(rt, rec, nIss, rapid.IntRange(0, 4).Draw(rt, "autoRebuildAtStart") == 4)
 		defer s.close()
 		// short-lived certificates and real waiting ("until it expires") only in a few cases: they cost seconds
-		slow := c15Chance(rt, "slowCase", verifx.Scale(4, 10))
+		slow := vxChance(rt, "slowCase", verifx.Scale(4, 10))
 		waits := 0
 		defer func() {
 			class, nt := s.classify()
